@@ -305,4 +305,22 @@ example : Generated.Merge.mergeStringMapsStep mergeKVs id setKeyKVs "a" (.node [
       [("a", .node [("y", .leaf "2")])] = [("a", .node [("y", .leaf "2"), ("x", .leaf "1")])] := by
   simp [Generated.Merge.mergeStringMapsStep, lookup, replace, mergeKVs]
 
+
+/-- **`InterfaceConfig.Initialize` is the translated source**: the `configs` entries of an interface after initialisation
+are what the translated function and its translated loop body give – without entries the single entry *is* the interface
+config, otherwise every entry is merged with the interface config, a null entry (`-`) being initialised to the empty
+config first (so it behaves like an entry that sets nothing) -/
+theorem interface_initialize_is_the_translated_source (ft : FieldTable) (pkgCfg cfg : Cfg) (ic : IfaceCfg) :
+    (initIface ft pkgCfg (some ic)).configs =
+      configsByTranslation ft (mergeConfigs ft pkgCfg (ic.config.getD [])) ic.configs ∧
+    runEntryEffects ft cfg none (Generated.Merge.interfaceInitializeEntryEffects true) =
+      runEntryEffects ft cfg (some []) (Generated.Merge.interfaceInitializeEntryEffects false) :=
+  ⟨initIface_configs_translated ft pkgCfg ic, null_entry_is_empty_entry ft cfg⟩
+
+/-- the translated effects, spelled out: no entries; an ordinary entry; a null entry -/
+example : Generated.Merge.interfaceInitializeEffects 0 = ["configs := [config]"] ∧
+    Generated.Merge.interfaceInitializeEffects 2 = ["range c.Configs"] ∧
+    Generated.Merge.interfaceInitializeEntryEffects false = ["merge config into entry"] ∧
+    Generated.Merge.interfaceInitializeEntryEffects true = ["entry := {}", "store entry", "merge config into entry"] := by decide
+
 end Mockery.C08
